@@ -274,24 +274,68 @@ impl Sys {
 }
 
 impl System for Sys {
-    type Worker = ();
-    fn new_worker(&self) {}
+    /// transitions run in request/response worker processes that are replaced every few hundred
+    /// requests: every transition builds interpreters and library instances the implementation
+    /// never frees (~300 KB each)
+    type Worker = crate::supervise::ProcWorker;
+    fn new_worker(&self) -> Self::Worker {
+        crate::supervise::ProcWorker::new(vec!["C13".into()], 400)
+    }
     fn n_ops(&self) -> usize {
         self.ops.len()
     }
     fn op_name(&self, op: usize) -> String {
         OPS[op].to_string()
     }
-    fn initial_key(&self, _: &mut ()) -> u64 {
-        let cfg = self.cfg;
-        let s = Sys { cfg, ops: self.ops.clone(), probes: self.probes.clone(), dir: self.dir.clone() };
-        on_fresh_thread(move || s.run(&[], None).key)
+    fn initial_key(&self, w: &mut Self::Worker) -> u64 {
+        self.remote(w, &[], None).key
     }
-    fn step(&self, _: &mut (), history: &[u16], op: u16) -> StepResult {
-        // a fresh interpreter on a fresh thread per transition
-        let s = Sys { cfg: self.cfg, ops: self.ops.clone(), probes: self.probes.clone(), dir: self.dir.clone() };
-        let h = history.to_vec();
-        on_fresh_thread(move || s.run(&h, Some(op)))
+    fn step(&self, w: &mut Self::Worker, history: &[u16], op: u16) -> StepResult {
+        self.remote(w, history, Some(op))
+    }
+}
+
+impl Sys {
+    fn remote(&self, w: &mut crate::supervise::ProcWorker, history: &[u16], op: Option<u16>) -> StepResult {
+        let req = json!({"cfg": self.cfg, "history": history, "op": op});
+        match w.request(&req) {
+            Ok(j) => StepResult {
+                key: j["key"].as_u64().unwrap_or(0),
+                obs_hash: j["obs_hash"].as_u64().unwrap_or(0),
+                class: j["class"].as_str().unwrap_or("").to_string(),
+                mismatch: j["mismatch"].as_array().map(|a| (a[0].as_str().unwrap_or("").to_string(), a[1].as_str().unwrap_or("").to_string())),
+                known: None,
+            },
+            // the transition killed or hung its worker: importing / calling did not end normally
+            Err(e) => StepResult { key: hash_of(&(history, op, "died")), obs_hash: 0, class: "worker-died".into(), mismatch: Some((": the operation ends with a value or an error".into(), e)), known: None },
+        }
+    }
+}
+
+/// worker process entry: `mc worker C13` — one JSON request {cfg, history, op} per line
+pub fn worker(_args: &[String]) {
+    crate::supervise::worker_init(120_000, 24 << 30);
+    let stdin = std::io::stdin();
+    let mut line = String::new();
+    let mut n = 0u64;
+    loop {
+        line.clear();
+        match stdin.read_line(&mut line) {
+            Ok(0) | Err(_) => break,
+            Ok(_) => {}
+        }
+        let j: serde_json::Value = match serde_json::from_str(line.trim()) {
+            Ok(j) => j,
+            Err(_) => break,
+        };
+        let cfg = j["cfg"].as_u64().unwrap_or(0) as usize;
+        let history: Vec<u16> = j["history"].as_array().map(|a| a.iter().map(|x| x.as_u64().unwrap_or(0) as u16).collect()).unwrap_or_default();
+        let op = j["op"].as_u64().map(|x| x as u16);
+        crate::supervise::case_begin(n);
+        let r = on_fresh_thread(move || Sys::new(cfg).run(&history, op));
+        crate::supervise::case_end();
+        n += 1;
+        crate::supervise::emit(&json!({"key": r.key, "obs_hash": r.obs_hash, "class": r.class, "mismatch": r.mismatch.map(|(e, o)| vec![e, o])}).to_string());
     }
 }
 
